@@ -96,6 +96,34 @@ def redescribe(crys, rng, kind):
         return crystal.Crystal(crys.lattice @ S, basis, chemistry=crys.chemistry, noreduce=True), "S=%s" % S.tolist()
 
 
+def obstruction_bounds(crys, chem, cutoff, cd, eps=1e-6):
+    """(lo, hi): number of jumps of species chem shorter than the cutoff (per cell, directed) that are certainly / possibly
+    unobstructed: a jump is obstructed when an atom of another species lies within cd of the CLOSED segment between its end
+    points (0 <= t <= 1, the library's rule).  'Certainly unobstructed': no atom with -eps <= t <= 1+eps within cd+eps;
+    'possibly': no atom with eps <= t <= 1-eps within cd-eps.  Brute force over a box that covers cutoff + cd."""
+    A = crys.lattice; dim = crys.dim
+    nbox = [int(np.ceil((cutoff + cd + 1e-9) * np.linalg.norm(crys.invlatt[i])) + 1) for i in range(dim)]   # |row i of A^-1| bounds coefficients
+    cells = np.array(list(itertools.product(*[range(-n, n + 1) for n in nbox])))
+    T = cells @ A.T
+    sites = [A @ u for u in crys.basis[chem]]
+    hosts = np.array([A @ u for c, b in enumerate(crys.basis) if c != chem for u in b])
+    lo = hi = 0
+    for xi in sites:
+        H = (hosts[:, None, :] + T[None, :, :]).reshape(-1, dim) - xi if len(hosts) else np.zeros((0, dim))
+        for xj in sites:
+            dxs = xj + T - xi
+            L2 = np.einsum("ij,ij->i", dxs, dxs)
+            for dx, l2 in zip(dxs[(L2 > 1e-12) & (L2 < cutoff * cutoff)], L2[(L2 > 1e-12) & (L2 < cutoff * cutoff)]):
+                if len(H) == 0: lo += 1; hi += 1; continue
+                t = H @ dx / l2
+                perp = np.sqrt(np.maximum(np.einsum("ij,ij->i", H, H) - t * t * l2, 0.0))
+                sure_block = np.any((t >= eps) & (t <= 1 - eps) & (perp < cd - eps)) if cd > eps else np.any((t >= eps) & (t <= 1 - eps) & (perp < 1e-9))
+                maybe_block = np.any((t >= -eps) & (t <= 1 + eps) & (perp < cd + eps))
+                if not maybe_block: lo += 1
+                if not sure_block: hi += 1
+    return lo, hi
+
+
 def match(crys, chem, sl, jn, crys2, sl2, jn2):
     """map Wyckoff sets and jump classes of crys2 to those of crys by Cartesian geometry (origin shift allowed).
     Returns (wmap, tmap, sitemap) or None"""
@@ -181,6 +209,31 @@ def run(ck):
                 ck.violation("re-described crystal (%s) has %d distinct jumps within the cutoff, the original %d per primitive cell (x%d cells)" % (kind, len(j2), len(j1), ncell),
                              {"crystal": repr(crys), "chem": chem, "cutoff": cut, "redescribed": repr(crys2), "how": what}, key="c09-jump-count")
                 continue
+            # the same with an obstruction distance and a longer cutoff (jumps spanning several cells of the re-described lattice,
+            # blocking atoms of the other species far from the initial site in cell units): still pure geometry
+            if crys.Nchem > 1:
+                cd = rng.choice([0.0, rng.uniform(0.1, 0.5)]); cut2 = cut * rng.choice([1.3, 1.7])
+                try:
+                    o1 = {(i, j, tuple(np.round(dx, 6))) for t in crys.jumpnetwork(chem, cut2, cd) for (i, j), dx in t}
+                    o2 = {(i, j, tuple(np.round(dx, 6))) for t in crys2.jumpnetwork(chem, cut2, cd) for (i, j), dx in t}
+                except Exception as e:
+                    ck.violation("jumpnetwork(closestdistance=%.3g) raised %r" % (cd, e), {"crystal": repr(crys), "redescribed": repr(crys2), "how": what}, key="c09-raise"); o1 = o2 = None
+                if o1 is not None:
+                    lo, hi = obstruction_bounds(crys, chem, cut2, cd)
+                    ck.case(key=("count-obstructed", label, round(cut2, 5), round(cd, 5), kind, what), nontrivial=True, kind="jumpcount-obstructed:" + kind)
+                    # knife-edge geometry (a blocking atom exactly abreast of an end point, or exactly at the obstruction distance)
+                    # is decided by roundoff in either description: both counts must lie between the robust bounds of the exact
+                    # geometric count; when the bounds coincide this is equality
+                    if not (lo <= len(o1) <= hi and ncell * lo <= len(o2) <= ncell * hi):
+                        ck.violation("with closestdistance=%.3g and cutoff %.4g the original description has %d unobstructed jumps and the re-described crystal (%s) "
+                                     "%d (x%d cells); exact geometric count per primitive cell between %d and %d" % (cd, cut2, len(o1), kind, len(o2), ncell, lo, hi),
+                                     {"crystal": repr(crys), "chem": chem, "cutoff": cut2, "closestdistance": cd, "redescribed": repr(crys2), "how": what},
+                                     key="c09-jump-count-obstructed")
+                    if False:
+                        ck.violation("with closestdistance=%.3g and cutoff %.4g the re-described crystal (%s) has %d distinct unobstructed jumps, the original %d per "
+                                     "primitive cell (x%d cells)" % (cd, cut2, kind, len(o2), len(o1), ncell),
+                                     {"crystal": repr(crys), "chem": chem, "cutoff": cut2, "closestdistance": cd, "redescribed": repr(crys2), "how": what},
+                                     key="c09-jump-count-obstructed")
             if kind == "supercell-reduced" and (ncell != 1 or len(crys2.G) != len(crys.G)):
                 ck.violation("a supercell listing handed to Crystal() is not folded back to the same crystal: volume ratio %d, %d operations instead of %d"
                              % (ncell, len(crys2.G), len(crys.G)),
